@@ -184,8 +184,11 @@ def jobs_after_prepare(A: Analysis, col: Collector, rule: str):
         else:
             col.ok(rule, f"`{norm(stmt, 50)}`: the element is delivered whenever the key is present (KeyError / membership decides)", A.loc(r))
     # the value of a split field comes from vals[state_key]
-    keys = [n for n in walk_own(st.node) if isinstance(n, ast.Assign) and isinstance(n.value, ast.JoinedStr) and "inpt_name" in norm(n.value)]
-    if keys and norm(keys[0].value) == "f'{self.node.name}.{inpt_name}'":
+    # f"{self.node.name}.{<loop variable over the node's input names>}" -- recognised by shape, not by the variable's name
+    in_loops = [l for l in walk_own(st.node) if isinstance(l, ast.For) and isinstance(l.target, ast.Name) and "input_names" in norm(l.iter)]
+    in_vars = {l.target.id for l in in_loops}
+    keys = [n for n in walk_own(st.node) if isinstance(n, ast.Assign) and isinstance(n.value, ast.JoinedStr) and any(isinstance(k, ast.Name) and k.id in in_vars for k in ast.walk(n.value))]
+    if keys and any(norm(keys[0].value) == f"f'{{self.node.name}}.{{{v_}}}'" for v_ in in_vars):
         col.ok(rule, "state key of an input is '<node name>.<input name>'", A.loc(keys[0]))
     else:
         col.fail(rule, st.qualname, "state-key-format", "the key used to look a split value up is not '<node>.<input>'", A.loc(st.node))
